@@ -88,4 +88,130 @@ theorem loadLoop_enc (id data tail : PyStr) (form n i : Nat) (acc : Dict) (h : B
     have : i + 2 + 2 + 2 + 2 * form + data.length = i + (id.length + (2 + (2 + (2 * form + data.length)))) := by rw [h.idlen]; omega
     simp only [List.length_append, natHex_length, List.length_cons, List.length_nil, this]
 
+
+/-! ## all optional blocks, each in its own admissible form, then the pad block -/
+
+/-- the forms chosen for the blocks are admissible (a missing form means the short form, as in `encodeBlocks`) -/
+def FormsOK : Dict → List Nat → Prop
+  | [], _ => True
+  | (_, data) :: r, f :: fs => FormOK data f ∧ FormsOK r fs
+  | (_, data) :: r, [] => FormOK data 0 ∧ FormsOK r []
+
+theorem loadLoop_encs (d : Dict) (forms : List Nat) (tail : PyStr) (m i : Nat) (acc : Dict)
+    (hwf : BlocksWF d) (hnd : (acc ++ d).map Prod.fst |>.Nodup) (hf : FormsOK d forms) :
+    loadLoop (d.length + m) (encodeBlocks d forms ++ tail) i acc =
+      loadLoop m tail (i + (encodeBlocks d forms).length) (acc ++ d) := by
+  induction d generalizing forms i acc with
+  | nil => simp [encodeBlocks]
+  | cons p r ih =>
+    obtain ⟨id, data⟩ := p
+    have hp := hwf (id, data) (by simp)
+    have hfresh : id ∉ acc.map Prod.fst := by
+      intro hin
+      rw [List.map_append, List.map_cons] at hnd
+      have := (List.nodup_append.mp hnd).2.2 id hin id (by simp)
+      exact this rfl
+    cases forms with
+    | nil =>
+      obtain ⟨hf1, hf2⟩ := hf
+      simp only [encodeBlocks]
+      rw [List.length_cons, Nat.add_right_comm, List.append_assoc,
+        loadLoop_enc id data _ 0 (r.length + m) i acc hp.1 hf1]
+      simp only [hp.2, Bool.false_eq_true, if_false]
+      rw [dictSet_fresh acc id data hfresh,
+        ih [] _ (acc ++ [(id, data)]) (fun q hq => hwf q (by simp [hq])) (by simpa [List.append_assoc] using hnd) hf2]
+      simp [List.append_assoc, Nat.add_assoc]
+    | cons f fs =>
+      obtain ⟨hf1, hf2⟩ := hf
+      simp only [encodeBlocks]
+      rw [List.length_cons, Nat.add_right_comm, List.append_assoc,
+        loadLoop_enc id data _ f (r.length + m) i acc hp.1 hf1]
+      simp only [hp.2, Bool.false_eq_true, if_false]
+      rw [dictSet_fresh acc id data hfresh,
+        ih fs _ (acc ++ [(id, data)]) (fun q hq => hwf q (by simp [hq])) (by simpa [List.append_assoc] using hnd) hf2]
+      simp [List.append_assoc, Nat.add_assoc]
+
+/-- psec's block loader on the specification's optional-block section (blocks in any admissible forms, then whatever pad
+block the builder chose): all consumed, exactly the header's blocks stored -/
+theorem blocksLoad_spec (d : Dict) (forms : List Nat) (bs padMode : Nat) (tail : PyStr)
+    (hwf : BlocksWF d) (hnd : (d.map Prod.fst).Nodup) (hf : FormsOK d forms)
+    (hp : 4 + padSize bs (encodeBlocks d forms).length padMode ≤ 255) :
+    blocksLoad (d.length + (padBlock bs (encodeBlocks d forms).length padMode).2)
+        (encodeBlocks d forms ++ (padBlock bs (encodeBlocks d forms).length padMode).1 ++ tail) =
+      (.ok (encodeBlocks d forms ++ (padBlock bs (encodeBlocks d forms).length padMode).1).length, d) := by
+  unfold blocksLoad padBlock
+  by_cases hneed : (16 + (encodeBlocks d forms).length) % bs ≠ 0 ∨ padMode ≥ 1
+  · rw [if_pos hneed]
+    simp only []
+    rw [List.append_assoc, loadLoop_encs d forms _ 1 0 [] hwf (by simpa using hnd) hf]
+    generalize padSize bs (encodeBlocks d forms).length padMode = p at hp ⊢
+    have hb : BlockOK [80, 66] (List.replicate p 48) := ⟨rfl, by decide, zerosS_printable p⟩
+    have hfo : FormOK (List.replicate p 48) 0 := Or.inl ⟨rfl, by simp; omega⟩
+    have henc : encodeBlock [80, 66] (List.replicate p 48) 0 = [80, 66] ++ natHex 2 (4 + p) ++ List.replicate p 48 := by
+      unfold encodeBlock; rw [if_pos rfl, List.length_replicate, Nat.add_comm]
+    rw [← henc, loadLoop_enc [80, 66] _ tail 0 0 _ _ hb hfo]
+    simp [isPB_PB, loadLoop, Nat.add_assoc]
+  · rw [if_neg hneed]
+    simp only [List.append_nil, Nat.add_zero]
+    have := loadLoop_encs d forms tail 0 0 [] hwf (by simpa using hnd) hf
+    simp only [Nat.add_zero, List.nil_append, Nat.zero_add] at this
+    rw [this]; rfl
+
+
+/-! ## the binary sections -/
+
+theorem fromHexWs_hexOfBytes (u : Bool) : ∀ b : Bytes, fromHexWs (hexOfBytes u b) = some b
+  | [] => rfl
+  | x :: r => by
+    have hlt1 : x.toNat / 16 < 16 := by have := x.toNat_lt; omega
+    have hlt2 : x.toNat % 16 < 16 := Nat.mod_lt _ (by decide)
+    have ih := fromHexWs_hexOfBytes u r
+    unfold hexOfBytes at ih ⊢
+    rw [List.flatMap_cons]
+    have hmk : mkByte (x.toNat / 16) (x.toNat % 16) = x := by
+      unfold mkByte
+      have : x.toNat / 16 * 16 + x.toNat % 16 = x.toNat := by omega
+      rw [this]; simp
+    cases u with
+    | true =>
+      have e : hexOfByte true x = [hexDigitU (x.toNat / 16), hexDigitU (x.toNat % 16)] := rfl
+      rw [e]
+      simp only [List.cons_append, List.nil_append, fromHexWs]
+      rw [if_neg (by rw [isHexC_not_space _ (hexVal_hexDigitU_fin ⟨_, hlt1⟩).2.1]; simp),
+        hexVal_hexDigitU _ hlt1, hexVal_hexDigitU _ hlt2, ih]
+      simp [hmk]
+    | false =>
+      have e : hexOfByte false x = [hexDigitL (x.toNat / 16), hexDigitL (x.toNat % 16)] := rfl
+      rw [e]
+      simp only [List.cons_append, List.nil_append, fromHexWs]
+      rw [if_neg (by rw [isHexC_not_space _ (hexVal_hexDigitU_fin ⟨_, hlt1⟩).2.2.2]; simp),
+        hexVal_hexDigitL _ hlt1, hexVal_hexDigitL _ hlt2, ih]
+      simp [hmk]
+
+theorem hexOfBytes_length (u : Bool) : ∀ b : Bytes, (hexOfBytes u b).length = 2 * b.length
+  | [] => rfl
+  | x :: r => by
+    have ih := hexOfBytes_length u r
+    unfold hexOfBytes at ih ⊢
+    rw [List.flatMap_cons, List.length_append, ih]
+    cases u <;> simp [hexOfByte, byteHexU, byteHexL] <;> omega
+
+theorem specCbcEnc_eq (E : Bytes → Bytes) (bs : Nat) (hbs : 0 < bs) :
+    ∀ (n fuel : Nat) (iv data : Bytes), data.length = n * bs → n ≤ fuel →
+    (cbcEnc E iv (splitBlocks bs fuel data)).flatten = (cbcEncUpdate E bs n iv data).1
+  | 0, fuel, iv, data, hl, _ => by
+    have : data = [] := List.eq_nil_of_length_eq_zero (by simpa using hl)
+    subst this
+    rw [splitBlocks_nil]; rfl
+  | n + 1, 0, _, _, _, hf => by omega
+  | n + 1, f + 1, iv, data, hl, hf => by
+    have hne : data ≠ [] := by
+      intro h; subst h
+      have : (n + 1) * bs = 0 := by simpa using hl.symm
+      rcases Nat.mul_eq_zero.mp this with h | h <;> omega
+    simp only [splitBlocks, if_neg hne, cbcEnc, cbcEncUpdate, List.flatten_cons]
+    have hl' : (data.drop bs).length = n * bs := by
+      rw [List.length_drop, hl, Nat.succ_mul]; omega
+    rw [specCbcEnc_eq E bs hbs n f _ (data.drop bs) hl' (by omega)]
+
 end Psec.Tr31
